@@ -413,7 +413,7 @@ func TestOverlong(t *testing.T) {
 // DefaultStorage state machine
 
 type storageModel struct {
-	names map[netip.Addr][]string   // first-seen spellings, unique by ASCII lower-case
+	names map[netip.Addr][]string // first-seen spellings, unique by ASCII lower-case
 	addrs map[string][]netip.Addr // lower(name) -> unique addresses in order
 }
 
